@@ -1336,9 +1336,14 @@ class _Run:
         depth = len(model.stack)
         if idxs is None:
             if out == "ok":
-                # pint accepted an activation the generator built to be invalid: the model
-                # cannot follow; the run stops here without a verdict (counted).
-                self.col.probe("invalid_activation_accepted")
+                # An unknown context name, or a redefinition of an undefined / prefixed / base unit or
+                # one that changes dimensionality (the four cases pint's own suite expects to raise),
+                # was accepted: the activation that had to fail did not, whatever is active now.
+                self.violate("C12.invalid-accepted", s["id"], {
+                    "form": form, "contexts": s.get("ctxs") or [s.get("ctx")], "stack": _stack_json(model),
+                    "invalid": [self.spec["contexts"][r["c"]]["bad"] if "c" in r else "unknown name"
+                                for r in (s.get("ctxs") or [s.get("ctx")])
+                                if "bad" in r or self.spec["contexts"][r["c"]]["bad"]]})
                 raise _EndRun()
             self.last_fail = s["id"]
             self.col.fault("bad_activation")
@@ -1460,7 +1465,8 @@ class _Run:
         if ("err", "*") in exp:
             ok = got[0] == "err"
             if got[0] != "err":
-                self.col.probe("invalid_activation_accepted")
+                self.violate("C12.invalid-accepted", s["id"], {"form": form, "contexts": s.get("ctxs"),
+                                                               "stack": _stack_json(model), "got": got[0]})
                 raise _EndRun()
         elif form == "compat_q":
             want = {e[0] == "val" for e in exp}
